@@ -23,6 +23,7 @@ import (
 	netv1 "k8s.io/api/networking/v1"
 	"k8s.io/apimachinery/pkg/api/resource"
 	metav1 "k8s.io/apimachinery/pkg/apis/meta/v1"
+	"k8s.io/apimachinery/pkg/runtime"
 	"k8s.io/apimachinery/pkg/labels"
 	kfake "k8s.io/client-go/kubernetes/fake"
 	ktesting "k8s.io/client-go/testing"
@@ -368,13 +369,40 @@ func TestVerif_C11(t *testing.T) {
 		if rapid.IntRange(0, 3).Draw(t, "updateChangesManifest") > 0 {
 			updated = c11GenGroup(t)
 		}
-		for round := 0; round < 2; round++ {
+		// sometimes the update hits one API error (a one-shot fault on a drawn verb/resource); the
+		// provider retries the same manifest in a third round. Whatever Deploy() reports as a
+		// success must leave objects that match the manifest it was given.
+		rounds := 2
+		faultRound := -1
+		var faultVerb, faultRes string
+		if rapid.IntRange(0, 2).Draw(t, "faultDuringUpdate") == 0 {
+			rounds, faultRound = 3, 1
+			faultVerb = rapid.SampledFrom([]string{"update", "create", "delete-collection"}).Draw(t, "faultVerb")
+			faultRes = rapid.SampledFrom([]string{"deployments", "deployments", "services", "ingresses", "networkpolicies"}).Draw(t, "faultResource")
+		}
+		for round := 0; round < rounds; round++ {
 			kc.ClearActions()
 			ac.ClearActions()
-			if round == 1 {
+			if round >= 1 {
 				group = updated
 			}
+			fired := false
+			if round == faultRound {
+				armed := true
+				kc.PrependReactor(faultVerb, faultRes, func(ktesting.Action) (bool, runtime.Object, error) {
+					if !armed {
+						return false, nil, nil
+					}
+					armed, fired = false, true
+					return true, nil, fmt.Errorf("verif: injected API error on %s %s", faultVerb, faultRes)
+				})
+				defer func() { armed = false }()
+			}
 			if err := cl.Deploy(context.Background(), lid, &group); err != nil {
+				if fired {
+					vsLabel("update-failed-by-injected-fault:" + faultVerb + "-" + faultRes)
+					continue // the retry is the next round
+				}
 				// a manifest the builders cannot express is a refusal, not a violation of this property
 				vsLabel("deploy-refused")
 				return
